@@ -212,7 +212,12 @@ func c15Rlpx(r *simrt.Run) {
 	case <-time.After(3 * time.Minute):
 		r.Fail("transport-stalled", "rlpx", "rlpx endpoints did not finish within 3 simulated minutes (handshake and frame timeouts are 5 s / 30 s)")
 	}
-	r.Logf("rlpx: %d faults, handshake errors node=%v peer=%v, delivered %d of %d, node error=%v", len(faults), hsNodeErr != nil, hsPeerErr != nil, len(delivered), len(plan), nodeErr != nil)
+	// the event log (and with it the digest) carries the plan, which is a function of the tape; HOW the two
+	// real endpoint goroutines fail on a damaged stream (which side notices first, how many frames got through
+	// before) was seen to differ once between two executions of one seed on a heavily loaded machine - it is
+	// judged below but kept out of the digest
+	r.Logf("rlpx: %d faults planned, %d messages planned", len(faults), len(plan))
+	r.Sample["rlpx_outcome"] = fmt.Sprintf("handshake errors node=%v peer=%v, delivered %d of %d, node error=%v", hsNodeErr != nil, hsPeerErr != nil, len(delivered), len(plan), nodeErr != nil)
 	// never a message that was not sent: delivered must be a prefix of the plan
 	if len(delivered) > len(plan) {
 		r.Fail("frame-forged-delivery", "extra", "the transport delivered %d messages, %d were sent", len(delivered), len(plan))
